@@ -39,6 +39,12 @@ def families(prop: str, tier: str, seed: int) -> Dict[str, List[gen.Spec]]:
         fam["edge"] = (gen.family_H(seed, 6 if q else 250)
                        + gen.family_T_random(seed + 2, 10 if q else 150, min_states=4, max_states=6))
         fam["walk"] = gen.family_H(seed + 3, 8 if q else 80, density=0.6)
+    elif prop == "C20":
+        fam["edge"] = gen.family_E(seed, 60 if q else 1500)
+        fam["walk"] = gen.family_E(seed + 3, 6 if q else 60)
+    elif prop == "C06":
+        fam["edge"] = gen.family_G(seed, 14 if q else 800, depth=1 if q else 2) + gen.family_G(seed + 1, 4 if q else 400, depth=2)
+        fam["walk"] = gen.family_G(seed + 3, 6 if q else 60)
     elif prop == "C02":
         fam["edge"] = (gen.family_S(seed, 40 if q else 500)
                        + gen.family_T_random(seed + 1, 10 if q else 100, min_states=3, max_states=5))
@@ -85,6 +91,8 @@ def rule_for(prop: str) -> str:
         "C01": "machine families T (random trees with one transition per ordered (source,target) pair, reenter twins, targetless), H (history under compound/parallel parents), D (completion nests); TLC explores every reachable quiescent state x every event; every explored edge is replayed on the real engine; non-trivial = the step changes the configuration or runs at least one action",
         "C02": "machine family S (selection layouts: chains and parallel regions with several guarded candidates per (state,event), shared-ancestor handlers, forbidden transitions) + T; every guard valuation over {T,F,R} per step, can() before sends; non-trivial as for C01",
         "C03": "as C01; every executed transition's log segment is checked for order/accounting/frame",
+        "C20": "machine family E: two-level machines whose child, parent and root each declare a random subset of the key universe {exact keys up to 3 segments, a.*, a.b.*, a.a.*, b.*, *, ab, done.*, xstate.*, exact synthetic keys}, optionally guarded candidates and null (forbidden) keys; every event type of <=3 segments over {a,b} plus look-alikes (ab, a.bb) and the four synthetic prefixes is sent from every reachable state under every guard valuation",
+        "C06": "machine family G: fixed two-level template with stateIn-visible sibling region; candidate lists [guarded, guarded, fallback] on the child, a guarded handler on the parent, a never-implemented guard as first candidate, and a choose action; guard expressions of nesting depth <=2 over named, parameterised, stateIn (three spellings), and missing atoms, operand spellings children / params.guards / params.children / params.guard, guard vs cond key; valuations over {true,false,raise} per atom",
         "C10": "machine families D (compound/parallel nests with final children, onDone absent/targetless/guarded/targeted at every level, top-level finals with outputs), R (raise/assign reactions, events queued behind completion) and T; every reachable state x event x guard valuation; completions are counted as rising edges of in-final along the configuration reconstructed from entry/exit witnesses",
         "C11": "machine families H (shallow/deep/both history children under compound and parallel parents, nested regions, default targets, wrapper depth) and T; TLC reaches never-visited / visited / re-visited-with-other-leaves histories by exploring all event sequences; every history-targeting edge from outside the parent is compared with the configuration remembered at the parent's last exit",
     }[prop]
@@ -95,7 +103,7 @@ def run(prop: str, tier: str, seed: int) -> int:
     fam = families(prop, tier, seed)
     q = tier == "quick"
     units: List[dict] = []
-    gvals = ("T", "F", "R") if prop == "C02" else ("T", "F")
+    gvals = ("T", "F", "R") if prop in ("C02", "C06") else ("T", "F")
     # edge units: big machines alone (largest first, so the pool balances), small ones grouped
     ordered = sorted(fam["edge"], key=_size, reverse=True)
     groups: List[List[gen.Spec]] = []
